@@ -12,7 +12,7 @@ import (
 )
 
 func init() {
-	props["C05"] = &propDef{run: runC05, explanation: "Partial (thin): that the 377-line recursive-descent re-serialiser and the number formatter produce the RFC 8785 form for every I-JSON value (fixed point, value preservation, spelling independence) is value-level and NOT decided. Decided statically — the constants and tables the RFC fixes, each a necessary condition: (T1) the two escape tables hold the seven RFC 8785 two-character escapes pairwise aligned, and reader and writer index both tables with one loop variable; (K1) the writer emits the remaining control characters (< 0x20) with the format \\u%04x (lower-case hex) and the reader rejects raw control bytes inside strings; (K2) NumberToJSON rejects NaN/Infinity by the exponent mask 0x7ff0000000000000, maps ±0 to \"0\", and selects fixed notation exactly for 1e-6 ≤ |x| < 1e21; (P1) the member sort key is unicode/utf16.Encode of the runes of the parsed member name, the ordering function reads only sort keys, equal keys raise an error, and a preceding key is inserted before the compared element; (P2) MarshalCanonical hands every value to Transform (json.Marshal first unless it already is []byte); (K3) the whitespace set is {0x20,0x0a,0x0d,0x09} and the literal table {true,false,null}. (K2) every string-valued call the accepted number text depends on is strconv.FormatFloat; (P2) canonicalisation, hashing and commitment functions read no package-level state that changes after initialisation. A string token is emitted as writer(reader()) (P4). With no differing code unit the shorter sort key precedes, equal keys raise the duplicate error, a longer key does not precede (three orderings of the two lengths)."}
+	props["C05"] = &propDef{run: runC05, explanation: "Partial (thin): that the 377-line recursive-descent re-serialiser and the number formatter produce the RFC 8785 form for every I-JSON value (fixed point, value preservation, spelling independence) is value-level and NOT decided. Decided statically — the constants and tables the RFC fixes, each a necessary condition: (T1) the two escape tables hold the seven RFC 8785 two-character escapes pairwise aligned, and reader and writer index both tables with one loop variable; (K1) the writer emits the remaining control characters (< 0x20) with the format \\u%04x (lower-case hex) and the reader rejects raw control bytes inside strings; (K2) NumberToJSON rejects NaN/Infinity by the exponent mask 0x7ff0000000000000, maps ±0 to \"0\", and selects fixed notation exactly for 1e-6 ≤ |x| < 1e21; (P1) the member sort key is unicode/utf16.Encode of the runes of the parsed member name, the ordering function reads only sort keys, equal keys raise an error, and a preceding key is inserted before the compared element; (P2) MarshalCanonical hands every value to Transform (json.Marshal first unless it already is []byte); (K3) the whitespace set is {0x20,0x0a,0x0d,0x09} and the literal table {true,false,null}. (K2) every string-valued call the accepted number text depends on is strconv.FormatFloat; (P2) canonicalisation, hashing and commitment functions read no package-level state that changes after initialisation. A string token is emitted as writer(reader()) (P4). With no differing code unit the shorter sort key precedes, equal keys raise the duplicate error, a longer key does not precede (three orderings of the two lengths). (K4) the value of a \\uXXXX escape is the library's base-16 parse of its digits; (K3) no byte cut from a wider integer is written, every byte set that mentions whitespace holds all four whitespace characters."}
 }
 
 // globalByteSlice: constants of a package-level []byte / []string literal initialised in init.
@@ -750,6 +750,14 @@ func (c *Ctx) jcsRules() {
 						}
 					}
 				}
+				// or the table entry at the position an index search found the token
+				if ld, isLd := r.Results[0].(*ssa.UnOp); isLd && !isLit {
+					if ia, isIA := ld.X.(*ssa.IndexAddr); isIA && c.Path(ia.X, nil) == "global:internal/jsoncanonicalizer.literals" {
+						if sc, isC := ia.Index.(*ssa.Call); isC && isIndexSearch(sc) && len(sc.Call.Args) == 2 && c.Path(sc.Call.Args[0], nil) == "global:internal/jsoncanonicalizer.literals" {
+							isLit, tokenLit = true, true
+						}
+					}
+				}
 				if !isLit && !isNum && !isTok {
 					ok = false
 				}
@@ -1022,7 +1030,72 @@ func isIndexSearch(cl *ssa.Call) bool {
 		return true
 	}
 	// (an instance of a generic function has no package of its own)
-	return pkgPathOf(g) == "slices" && strings.HasPrefix(g.Name(), "Index")
+	if pkgPathOf(g) == "slices" && strings.HasPrefix(g.Name(), "Index") {
+		return true
+	}
+	return isModuleIndexFn(g)
+}
+
+// isModuleIndexFn: a module function g(list, v) int (possibly generic) that answers the loop index i only on the edge
+// on which list[i] == v, and a negative constant otherwise — a hand-written index search.
+func isModuleIndexFn(g *ssa.Function) bool {
+	if g == nil || g.Blocks == nil || len(g.Params) != 2 || g.Signature.Results().Len() != 1 || !isIntType(g.Signature.Results().At(0).Type()) {
+		return false
+	}
+	o := g
+	if g.Origin() != nil {
+		o = g.Origin()
+	}
+	if !strings.HasPrefix(pkgPathOf(o), modPkg) {
+		return false
+	}
+	if _, isSl := g.Params[0].Type().Underlying().(*types.Slice); !isSl {
+		return false
+	}
+	nIdx, nNeg := 0, 0
+	for _, r := range returnsOf(g) {
+		v := r.Results[0]
+		if k, isK := v.(*ssa.Const); isK && k.Value != nil {
+			if k.Int64() >= 0 {
+				return false
+			}
+			nNeg++
+			continue
+		}
+		if !isInduction(v) && !isInductionExpr(v) {
+			return false
+		}
+		// entered on the true edge of list[i] == v
+		ok := false
+		for x := r.Block(); x != nil && !ok; x = x.Idom() {
+			id := x.Idom()
+			if id == nil || len(x.Preds) != 1 {
+				continue
+			}
+			iff, isIf := id.Instrs[len(id.Instrs)-1].(*ssa.If)
+			if !isIf || id.Succs[0] != x {
+				continue
+			}
+			bo, isB := iff.Cond.(*ssa.BinOp)
+			if !isB || bo.Op != token.EQL {
+				continue
+			}
+			for _, side := range [][2]ssa.Value{{bo.X, bo.Y}, {bo.Y, bo.X}} {
+				ld, isLd := side[0].(*ssa.UnOp)
+				if !isLd || side[1] != ssa.Value(g.Params[1]) {
+					continue
+				}
+				if ia, isIA := ld.X.(*ssa.IndexAddr); isIA && ia.X == ssa.Value(g.Params[0]) && ia.Index == v {
+					ok = true
+				}
+			}
+		}
+		if !ok {
+			return false
+		}
+		nIdx++
+	}
+	return nIdx >= 1 && nNeg >= 1
 }
 
 // prefixCaseRule: once the code-unit loop of the ordering function has found no difference (one key is a prefix of the
